@@ -335,6 +335,10 @@ package storagesc
 //@   requires sab != nil && balances != nil && t != nil && conf != nil
 //@   opaque payCancellationCharge
 //@   at-call payCancellationCharge assert[charge-capped-by-the-write-pool] $arg7 == cancellationCharge && cancellationCharge <= old(sab.WritePool)
+// what leaves the write pool is what the blobbers were paid - the running total of the per-blobber
+// payments, each added as returned - not the charge that was offered: nothing is left stuck in between
+//@   at-call AddCoin assert[total-adds-each-payment-as-returned] $arg0 == totalCancellationChargePaid && $arg1 == blobberCancellationChargePaid
+//@   at-call MinusCoin assert[write-pool-reduced-by-exactly-what-was-paid] $arg0 == sab.WritePool && $arg1 == totalCancellationChargePaid
 
 // No further lock can touch a closed allocation.
 //@ func (*StorageSmartContract).writePoolLock
